@@ -415,6 +415,87 @@ Proof.
   eapply reach_bind; [exact H|]. intros s' [A B]. apply reach_now. split; [exact A|]. rewrite B, Ho. reflexivity.
 Qed.
 
+(* non-vacuity of (4) for IF..THEN <statement>:  10 I = I + 1 / 20 IF I < 3 THEN PRINT I; /
+   30 IF I < 3 THEN 10  — the clause runs one nesting level down, or the rest of the line is skipped *)
+Definition ex4_lines := [HLine (bs "10 I = I + 1"); HLine (bs "20 IF I < 3 THEN PRINT I;"); HLine (bs "30 IF I < 3 THEN 10")].
+Definition ex4_s : interp := set_state Running (snd (run_from_first_numbered_line (StoreProofs.run_state 50 init_interp ex4_lines))).
+Definition cI3 : rexpr := XBin (RCmp CLt) (XVar vI) (XNum n3).
+Definition cI3' : expr := EBin (BCmp OLessThan) (EVar vI) (ENum n3).
+Definition ex4_p : rprogram :=
+  [(10%N, [SLet vI [] (XBin RAdd (XVar vI) (XNum n1))]);
+   (20%N, [SIf cI3 (AStmt (SPrint [PExpr (XVar vI); PSemi])) None]);
+   (30%N, [SIf cI3 (ALine 10%N) None])].
+
+Lemma cI3_renders : Renders 0 cI3' [TSymbol vI; TLessThan; TNumber n3].
+Proof.
+  do 2 (apply R_incl; [lia|]).
+  apply (R_bin (BCmp OLessThan) (EVar vI) (ENum n3) [TSymbol vI] [TNumber n3]).
+  - do 5 (apply R_incl; [cbn; lia|]). constructor.
+  - do 4 (apply R_incl; [cbn; lia|]). constructor.
+Qed.
+
+Lemma ex4_line20 : LRen 8 [SIf cI3 (AStmt (SPrint [PExpr (XVar vI); PSemi])) None]
+                          (TIf :: [TSymbol vI; TLessThan; TNumber n3] ++ TThen :: [TPrint; TSymbol vI; TSemicolon]).
+Proof.
+  apply LR_last.
+  apply (SR_if_stmt 8 0 [] cI3 cI3' [TSymbol vI; TLessThan; TNumber n3] (SPrint [PExpr (XVar vI); PSemi]) [TPrint; TSymbol vI; TSemicolon]);
+    try reflexivity; try apply cI3_renders; try (cbn; lia).
+  apply (SR_print 8 1 [] [PExpr (XVar vI); PSemi] [MExpr (EVar vI); MSemi] [TSymbol vI; TSemicolon]); try reflexivity; try (cbn; lia).
+  apply (IR_expr [] (EVar vI) [TSymbol vI] [MSemi] [TSemicolon]); [apply R0_var | reflexivity|].
+  apply IR_semi. apply IR_nil. reflexivity.
+Qed.
+
+Example ex4_sim : Sim 8 ex4_p [] (0, 0) (r_init 0) ex4_s.
+Proof.
+  apply (Sim_at 8 ex4_p [] 0 0 (r_init 0) ex4_s false).
+  - split; try reflexivity.
+    + repeat constructor.
+    + intros li n stmts H.
+      destruct li as [|[|[|li]]]; cbn in H; try (destruct li; discriminate); inversion H; subst; eexists; (split; [vm_compute; reflexivity|]).
+      * apply LR_last.
+        apply (SR_let 8 0 [] vI (XBin RAdd (XVar vI) (XNum n1)) (EBin (BAddSub OAdd) (EVar vI) (ENum n1)) [TSymbol vI; TPlus; TNumber n1]); try reflexivity; try (cbn; lia).
+        do 3 (apply R_incl; [lia|]).
+        apply (R_bin (BAddSub OAdd) (EVar vI) (ENum n1) [TSymbol vI] [TNumber n1]).
+        -- do 4 (apply R_incl; [cbn; lia|]). constructor.
+        -- do 3 (apply R_incl; [cbn; lia|]). constructor.
+      * exact ex4_line20.
+      * apply LR_last.
+        apply (SR_if 8 0 [] cI3 cI3' [TSymbol vI; TLessThan; TNumber n3] 10%N n10); try reflexivity; try apply cI3_renders; try (cbn; lia).
+    + intros n H.
+      assert (E : st_toks ex4_s = [(30%N, [TIf; TSymbol vI; TLessThan; TNumber n3; TThen; TNumber n10]);
+                                  (20%N, [TIf; TSymbol vI; TLessThan; TNumber n3; TThen; TPrint; TSymbol vI; TSemicolon]);
+                                  (10%N, [TSymbol vI; TEquals; TSymbol vI; TPlus; TNumber n1])]) by (vm_compute; reflexivity).
+      rewrite E in H. cbn [toks_get] in H. cbn [map fst ex4_p In].
+      destruct (N.eqb_spec 30 n); [subst; tauto|].
+      destruct (N.eqb_spec 20 n); [subst; tauto|]. destruct (N.eqb_spec 10 n); [subst; tauto|].
+      exfalso. apply H. reflexivity.
+  - reflexivity.
+  - split; intros name; reflexivity.
+  - reflexivity.
+  - split; [reflexivity | constructor].
+  - constructor.
+  - intros name x H. vm_compute in H. discriminate.
+  - exists 10%N, [SLet vI [] (XBin RAdd (XVar vI) (XNum n1))], [TSymbol vI; TEquals; TSymbol vI; TPlus; TNumber n1], [TSymbol vI; TEquals; TSymbol vI; TPlus; TNumber n1].
+    repeat split; try reflexivity.
+    apply LR_last.
+    apply (SR_let 8 0 [] vI (XBin RAdd (XVar vI) (XNum n1)) (EBin (BAddSub OAdd) (EVar vI) (ENum n1)) [TSymbol vI; TPlus; TNumber n1]); try reflexivity; try (cbn; lia).
+    do 3 (apply R_incl; [lia|]).
+    apply (R_bin (BAddSub OAdd) (EVar vI) (ENum n1) [TSymbol vI] [TNumber n1]).
+    + do 4 (apply R_incl; [cbn; lia|]). constructor.
+    + do 3 (apply R_incl; [cbn; lia|]). constructor.
+Qed.
+Example ex4_runs : exists st', rrun 8 ex4_p 40 (0,0) (r_init 0) = Done st' /\ r_out st' = [bs "1"; bs "2"]
+  /\ reach (fun s => state s = Idle /\ outputs s = map OPrint [bs "1"; bs "2"]) ex4_s.
+Proof.
+  pose proof (fragment_simulation 8 ex4_p [] 40 (0,0) (r_init 0) ex4_s ex4_sim) as H.
+  destruct (rrun 8 ex4_p 40 (0,0) (r_init 0)) as [pc st'|st'|er l st'|] eqn:E; try (vm_compute in E; discriminate).
+  exists st'. split; [reflexivity|].
+  assert (Ho : r_out st' = [bs "1"; bs "2"]).
+  { vm_compute in E. inversion E. reflexivity. }
+  split; [exact Ho|]. unfold after_step in H.
+  eapply reach_bind; [exact H|]. intros s' [A B]. apply reach_now. split; [exact A|]. rewrite B, Ho. reflexivity.
+Qed.
+
 (* non-vacuity: the manual's nested-loop example (NEXT I forgets the J loop)
    and a GOSUB in a colon line, run by the reference interpreter *)
 Definition nx := XNum (f64_of_Z 1).
